@@ -333,11 +333,11 @@ func (v Value) ToString() (string, bool) {
 }
 
 func getName(defaultName string, meta *Table) string {
-	if v := RawGet(meta, StringValue("__name")); !v.IsNil() {
-		s, ok := v.ToString()
-		if ok {
-			return s
-		}
+	// Only a string is a name (as in the reference implementation).  In
+	// particular the name must not be obtained by converting a table or userdata
+	// to a string, as this conversion uses the name of that value.
+	if s, ok := RawGet(meta, StringValue("__name")).TryString(); ok {
+		return s
 	}
 	return defaultName
 }
